@@ -23,7 +23,10 @@ use crate::util;
 
 #[derive(Deserialize)]
 struct Case {
-    c: Vec<Vec<u8>>, // [n, e, a, p, w, m] per candidate
+    c: Vec<Vec<u8>>, // [n, e, a, p, w, m, n2, e2, a2, p2] per candidate
+    /// candidate tuples of earlier ticks run on the SAME engine before this one
+    #[serde(default)]
+    prev: Vec<Vec<Vec<u8>>>,
     #[serde(rename = "accR")]
     acc_r: Vec<bool>,
     #[serde(rename = "accL")]
@@ -54,6 +57,21 @@ pub fn footprint_of(c: &[u8]) -> (Footprint, NodeKey) {
     if w(c[2]) { fp.a_write.insert(a); }
     if r(c[3]) { fp.b_in.insert(warp, p); }
     if w(c[3]) { fp.b_out.insert(warp, p); }
+    if c.len() >= 10 {
+        // second resource of every class
+        let n2 = NodeKey { warp_id: warp, local_id: ids::node("n1") };
+        let e2 = EdgeKey { warp_id: warp, local_id: ids::edge("e1") };
+        let a2 = AttachmentKey::node_alpha(n2);
+        let p2 = pack_port_key(&n2.local_id, 0, true);
+        if r(c[6]) { fp.n_read.insert(n2); }
+        if w(c[6]) { fp.n_write.insert(n2); }
+        if r(c[7]) { fp.e_read.insert(e2); }
+        if w(c[7]) { fp.e_write.insert(e2); }
+        if r(c[8]) { fp.a_read.insert(a2); }
+        if w(c[8]) { fp.a_write.insert(a2); }
+        if r(c[9]) { fp.b_in.insert(warp, p2); }
+        if w(c[9]) { fp.b_out.insert(warp, p2); }
+    }
     fp.factor_mask = match c[5] { 0 => 0, 1 => 0b01, _ => 0b10 };
     (fp, n)
 }
@@ -78,8 +96,25 @@ fn scope_hash_for(pos: usize) -> [u8; 32] {
     h
 }
 
-fn run_reserve(kind: SchedulerKind, case: &Case, reverse: bool) -> Result<(Vec<bool>, Vec<Vec<u32>>), String> {
-    let mut engine = new_engine(kind);
+/// One reserve pass of `cands` on `engine` (a fresh transaction on a possibly long-lived engine).
+fn reserve_tuple(engine: &mut Engine, cands: &[Vec<u8>], reverse: bool) -> Result<warp_core::TickReceipt, String> {
+    let tx = engine.begin();
+    let mut order: Vec<usize> = (0..cands.len()).collect();
+    if reverse {
+        order.reverse();
+    }
+    for k in order {
+        let (fp, scope) = footprint_of(&cands[k]);
+        engine.verif_enqueue_raw(tx, scope_hash_for(k + 1), rule_hash(7), 7, scope, fp);
+    }
+    engine.verif_drain_reserve(tx).map_err(|e| format!("reserve error: {e:?}"))
+}
+
+fn run_reserve(engine: &mut Engine, case: &Case, reverse: bool) -> Result<(Vec<bool>, Vec<Vec<u32>>), String> {
+    // earlier ticks on the same engine: their reservations must not leak into this one
+    for t in &case.prev {
+        reserve_tuple(engine, t, reverse)?;
+    }
     let tx = engine.begin();
     let mut order: Vec<usize> = (0..case.c.len()).collect();
     if reverse {
@@ -106,15 +141,43 @@ fn run_reserve(kind: SchedulerKind, case: &Case, reverse: bool) -> Result<(Vec<b
     Ok((acc, blk))
 }
 
-pub fn check_case(v: &Value) -> Value {
+pub struct Engines {
+    radix: Engine,
+    legacy: Engine,
+    uses: usize,
+}
+
+impl Engines {
+    pub fn new() -> Self {
+        Self { radix: new_engine(SchedulerKind::Radix), legacy: new_engine(SchedulerKind::Legacy), uses: 0 }
+    }
+}
+
+/// `engines` are reused across cases (every case is a new transaction on the same two engines),
+/// so state leaking from one tick into the next is observed; they are recreated every 4096 cases
+/// and after any failure.
+pub fn check_case(engines: &mut Engines, v: &Value) -> Value {
+    engines.uses += 1;
+    if engines.uses % 4096 == 0 {
+        *engines = Engines::new();
+    }
+    let r = check_case_inner(engines, v);
+    if r["verdict"] != "ok" {
+        *engines = Engines::new();
+    }
+    r
+}
+
+fn check_case_inner(engines: &mut Engines, v: &Value) -> Value {
     let case: Case = match serde_json::from_value(v.clone()) {
         Ok(c) => c,
         Err(e) => return json!({"verdict":"tool_error","detail":format!("case parse: {e}")}),
     };
     let want_blk: Vec<Vec<u32>> = case.blk.iter().map(|b| { let mut x: Vec<u32> = b.iter().map(|p| p - 1).collect(); x.sort(); x }).collect();
-    for (kind, name) in [(SchedulerKind::Radix, "radix"), (SchedulerKind::Legacy, "legacy")] {
+    for name in ["radix", "legacy"] {
         for reverse in [false, true] {
-            let got = match util::catch(|| run_reserve(kind, &case, reverse)) {
+            let engine = if name == "radix" { &mut engines.radix } else { &mut engines.legacy };
+            let got = match util::catch(|| run_reserve(engine, &case, reverse)) {
                 Ok(Ok(g)) => g,
                 Ok(Err(e)) => return json!({"verdict":"violation","kind":format!("{name}_reserve_failed"),"detail":e}),
                 Err(p) => return json!({"verdict":"violation","kind":format!("{name}_panicked"),"detail":p}),
@@ -155,8 +218,9 @@ pub fn run(args: &[String]) -> i32 {
     }
     let mut out = util::Out::create(&args[1]);
     let (mut n, mut viol, mut tool, mut rejected) = (0u64, 0u64, 0u64, 0u64);
+    let mut engines = Engines::new();
     for (i, v) in util::read_lines(&args[0]) {
-        let r = check_case(&v);
+        let r = check_case(&mut engines, &v);
         n += 1;
         if v["accR"].as_array().is_some_and(|a| a.iter().any(|x| x == &json!(false))) {
             rejected += 1;
